@@ -59,6 +59,10 @@ def s_arity(tier):
                 while base < n and not DOC[k](base): base += 1            # smallest documented count (if any below n)
                 ops_ = [good_operand(k, i) if i < base else filler for i in range(n)]
                 out.append(("count-filler", k, n, app({k: ops_}, {"a": 1, "b": None})))
+    for k in ALLOPS:
+        big = (65536, 65537, 65538, 65539) if (tier != "quick" or k in ("==", "-", "var", "max", "substr", "map", "!")) else ()
+        for n in (255, 256, 257) + big + ((131072, 131073, 131074) if tier != "quick" else ()):
+            out.append(("count-filler", k, n, app({k: [good_operand(k, i) if i < 3 else 1 for i in range(n)]}, {"a": 1, "b": None})))
     bare = [1, 0, "a", "", None, True, 1.5, {"var": "a"}, {"a": 1}, {}, {"log": "x"}, "abc", -1, {"unknown": 1}]
     for k in ALLOPS:
         for x in bare:
@@ -82,6 +86,9 @@ def s_literals(g, tier):
             vals.append({v: [1, 2]}); vals.append({v: "a"})
         vals.append({k: [1, 2], "zzz": 1}); vals.append({"!a": 0, k: [1, 2]}); vals.append({k: {"var": "a"}, k + "x": 1})
         vals.append([{k: [1, 2]}]); vals.append({"lit": {k: [1, 2]}}); vals.append([[{k: "a"}], {"b": [{k: []}]}])
+        for note in ("//", "#", "_comment", "$comment", "note", "description", "id", "@type", "", " ", "__proto__", "0", "_", "?", "version"):
+            vals.append({note: "n", k: [good_operand(k, 0), good_operand(k, 1)]}); vals.append({note: 1, k: "a"})
+            vals.append({"if": [True, {note: "n", k: [1, 2]}, 0]} if False else {"x": {note: "n", k: [1]}})
     vals += [{"": 1}, {"": {"var": "a"}}, {"a": {"var": "a"}}, [{"var": "a"}, {"+": [1, 2]}], {"and": [1], "or": [2]}, {"var": "a", "var ": "b"},
              {"a": 1, "b": {"if": [True, 1, 2]}}, [], [[]], [None], {"IF": [True, 1, 2]}, {"Var": "a"}, {"=": [1, 1]}, {"====": [1, 1]}, {"<>": [1, 2]},
              {"&&": [1, 2]}, {"||": [1, 2]}, {"not": [1]}, {"between": [1, 2, 3]}, {"method": [1]}]
@@ -94,6 +101,9 @@ def s_literals(g, tier):
         if G.is_op_shaped(v): continue
         for d in (datas if tier != "quick" else datas[:3]):
             out.append(("lit", v, app(v, d)))
+        if isinstance(v, dict) and len(v) == 2 and not G.is_op_shaped(v):
+            # the same literal in operand position (it must reach the operator unevaluated)
+            out.append(("inert", "if-branch", app({"if": [True, v, 0]}, datas[1]))); out.append(("inert", "merge", app({"merge": [v]}, datas[1])))
     # literal operands are inert: nothing inside an array/object literal given as an operand is evaluated
     # (the single exception: element expressions of a literal array that is the collection of all/some/none)
     shaped = [{"var": "a"}, {"+": [1, 2]}, {"/": [1]}, {"log": "LEAK"}, {"unknown": 1}, {"var": "zz"}, {"if": [True, "hijack"]}]
@@ -152,6 +162,17 @@ def s_control(g, tier):
     small = ATOMS5
     for _ in range(4000 if tier == "quick" else 80000):
         out.append(app(nested_if(g, g.r.randint(2, 4)), d))
+    dups = [{"!!": {"log": "v"}}, {"!": {"log": "g"}}, {"!!": [{"log": "v"}]}, {"var": {"log": "t"}}, {"cat": {"log": "c"}}, {"log": "plain"}, {"var": ["zz", {"!!": {"log": "dflt"}}]},
+            {"if": [{"!!": {"log": "in"}}, 1, 2]}, {"and": [{"!!": {"log": "a"}}]}, {"+": {"log": 1}}, {"max": {"log": 2}}, {"merge": {"log": [1]}}, {"!!": {"!!": {"log": "deep"}}}]
+    for x in dups:
+        for y in dups[:4]:
+            out += [app({"if": [x, x, "else"]}, d), app({"if": [x, x, x]}, d), app({"?:": [x, x, "else"]}, d), app({"and": [x, x]}, d), app({"or": [x, x]}, d), app({"if": [y, "a", x, x, "else"]}, d),
+                    app({"if": [x, y, x]}, d), app({"and": [x, y, x]}, d), app({"or": [y, x, x]}, d)]
+    kd = {"a": {"b": 1}, "a/b": 0, "x": {"y": 0}, "x/y": 5, "x~1y": "", "~0": 1, "1": "0", "0": "", "-1": [0], "2": {}, "t": "yes", "f": 0, "/": 0, "": {"": 1}}
+    for key in ["a/b", "x/y", "x~1y", "~0", "/", "a/0", 1, 0, -1, 2, 3, [1], ["a/b"], "1", "0"]:
+        c = {"var": key}
+        out += [app({"if": [c, "then", "else"]}, kd), app({"?:": [c, "then", "else"]}, kd), app({"and": [c, "next"]}, kd), app({"or": [c, "next"]}, kd), app({"!!": [c]}, kd),
+                app({"if": [False, 0, c, "then2", "else2"]}, kd), app({"if": [c, c, "else"]}, kd), app({"filter": [[1], c]}, kd), app({"all": [[1], c]}, kd)]
     for k in ("if", "?:", "and", "or"):
         for n in range(0, 4 if tier == "quick" else 5):
             for combo in itertools.product(small[:12] + small[14:16] if n == 3 and tier == "quick" else small, repeat=n) if n <= 3 else []:
@@ -190,7 +211,9 @@ def s_truthy(g, tier):
     # values reached through paths that index arrays from the end or strings by character
     pd = {"items": [0, "", [], "last"], "zeros": [1, 0], "name": "0x", "empty": "", "nest": {"l": [[0], []]}}
     for pth, dd in [("items.-1", pd), ("items.-2", pd), ("items.0", pd), ("zeros.-1", pd), ("zeros.-2", pd), ("name.0", pd), ("name.-1", pd), ("name.5", pd), ("empty.0", pd),
-                    ("nest.l.-1", pd), ("nest.l.0", pd), ("-1", [0, 1]), ("-2", [0, 1]), ("0", "x"), ("-1", "0"), (-1, [0, 5]), (-1, [5, 0]), (0, "a")]:
+                    ("nest.l.-1", pd), ("nest.l.0", pd), ("-1", [0, 1]), ("-2", [0, 1]), ("0", "x"), ("-1", "0"), (-1, [0, 5]), (-1, [5, 0]), (0, "a"),
+                    (1, {"1": "0"}), (1, {"1": 0}), (0, {"0": []}), (-1, {"-1": "x"}), (2, {"2": None}), ([1], {"1": "0"}), ("a/b", {"a": {"b": 1}, "a/b": 0}), ("a/b", {"a": {"b": 0}, "a/b": 1}),
+                    ("x~1y", {"x/y": 1, "x~1y": 0}), ("~0", {"~": 1, "~0": 0})]:
         e = {"var": pth}
         out += [app({"!!": [e]}, dd), app({"!": [e]}, dd), app({"if": [e, "T", "F"]}, dd), app({"?:": [e, "T", "F"]}, dd), app({"and": [e, "next"]}, dd), app({"or": [e, "next"]}, dd),
                 app({"if": [False, 1, e, "T2", "F2"]}, dd), app({"filter": [[1], e]}, dd), app({"all": [[1], e]}, dd), app({"some": [[1], e]}, dd), app({"none": [[1], e]}, dd)]
@@ -213,6 +236,20 @@ def s_pairs(ops, helpers, tier, g, triples=False):
             a, b, c = g.r.choice(pool), g.r.choice(pool), g.r.choice(pool)
             for k in ops:
                 out.append(app({k: [a, b, c]}, None))
+    # adjacent doubles (and numbers one ulp / a relative epsilon apart), as numbers, numeric strings and one-element arrays
+    import math
+    adj = []
+    for x in [0.3, 1.0, 0.1, 1e-7, 1e21, 123456.789, 4.35, 2.5, 1e300, 5e-324, 2.2250738585072014e-308, 0.1 + 0.2, 1 / 3, 1e-320, 9007199254740992.0, 0.5] + [g.num() for _ in range(120)]:
+        if isinstance(x, float) and x == x and abs(x) != float("inf"):
+            for y in (math.nextafter(x, math.inf), math.nextafter(x, -math.inf), math.nextafter(math.nextafter(x, math.inf), math.inf)):
+                if abs(y) != float("inf"): adj.append((x, y))
+    for x, y in adj:
+        for a, b in ((x, y), (y, x), (repr(x), y), (x, repr(y)), ([x], y), (x, [y])):
+            for k in ops:
+                out.append(via_var(k, [a, b]))
+                if isinstance(a, float) and isinstance(b, float): out.append(app({k: [a, b]}, None))
+            for h in helpers:
+                out.append(h + " " + enc(a) + " " + enc(b))
     # through var: operands arrive as evaluated values (and may be the same value twice)
     pool = [v for v in vals]
     for _ in range(3000 if tier == "quick" else 60000):
@@ -248,6 +285,16 @@ def s_arith(g, tier):
     for a in pool:
         for h in ("to_number", "parse_float", "to_negative"):
             out.append(h + " " + enc(a))
+    # long operand lists: float addition/multiplication is not associative, the fold order is part of the result
+    for xs in ([0.1] * 10, [0.1] * 9, [2 ** 53] + [1] * 9, [1] * 9 + [2 ** 53], [1e308, 0, 0, 0, 0, 1e308, -1e308, 0, 0, 0], [1e16, 1, -1e16] * 4, [0.1, 0.2, 0.3] * 5, [1e-320] * 12,
+               [3, 1e16, -1e16] * 3 + [0.5], [1.0000000000000002] * 17, [2 ** 53 + 1] * 9, ["0.1"] * 10, [[0.1]] * 10):
+        for k in ("+", "*", "max", "min"):
+            out.append(app({k: xs}, None)); out.append(via_var(k, xs))
+        out.append("parse_float_add " + enc(xs)); out.append("parse_float_mul " + enc(xs))
+    for _ in range(1500 if tier == "quick" else 40000):
+        ln = g.r.randint(6, 40)
+        xs = [g.fixnum(g.num()) if g.r.random() < 0.85 else g.r.choice(pool) for _ in range(ln)]
+        out.append(app({g.r.choice(["+", "*", "+", "max", "min"]): xs}, None))
     n = 20000 if tier == "quick" else 400000
     for _ in range(n):
         ln = g.r.randint(0, 5)
@@ -311,6 +358,8 @@ def s_var(g, tier):
             "x", "x.y", "s.0", "s.1", "s.-1", "s.5", "s.6", "s.-6", "s.-7", "s.+1", "s.01", "s.-0", "s. 1", "s.1 ", "l.1.0", "l.2.0", "l.2.-1", "l.-1.1", "0", "-1", "1",
             "é.ß", "é", "a\\b", "a\\\\b", "ab", "01", "+1", "", "zz", "a.zz", "a.b.c", "9223372036854775807", "-9223372036854775808", "9223372036854775808",
             "l.9223372036854775807", "l.-9223372036854775808", "l.-9223372036854775809", "l.18446744073709551615", "l.1e0", "l.0x1", "l.١", "s.😀", "a.b.1.0", "a.b.2.c.0"]
+    datas.append({"a": {"b": 1, "0": "zero"}, "a/b": "slash", "x/y": 5, "x~1y": "tilde", "~0": "t0", "~": "t", "/": "root", "l": [["deep"]], "l/0": "l-slash"})
+    keys += ["a/b", "x/y", "x~1y", "~0", "~", "/", "a/0", "l/0", "l/0/0", "a/b/c", "a~1b", "/a", "a/"]
     ikeys = [0, 1, -1, 2, 4, 5, -5, -6, 3, -3, 6, -7, I64MIN, I64MAX, 2 ** 63, U64MAX, 1.0, 0.5, -0.0, 1e3, None, True, [], ["a"], {}, [1], {"a": 1}]
     dflts = [None, 0, "dflt", {"var": "a.b.0"}, [1], {"cat": ["d", "f"]}]
     for d in datas:
@@ -366,6 +415,16 @@ def s_missing(g, tier):
         for k in ["a", "b", "c", "zz", "e.g", "e.h", "l.1", "l.2", 0, 1, 5, "", None, "s.0", "s.9", "a.b", "a\\.b", "s.0.0", "s.1.0.0", "name.2.0", "name.3.0", "0.0", "0.0.0", "l.0.0", "l.0.0.0",
                   "s.-1.0", "name.-1.-1", "l.0.2.0"]:
             out.append(("xvar", app({"missing": [k]}, d), app({"var": [k, "@@sentinel@@"]}, d)))
+    # long key lists (beyond 32) with keys that look alike: an integer and the string of its decimal text, repeated
+    for npres in (0, 5, 30, 40):
+        present = {"f%d" % i: i for i in range(npres)}
+        tail = [7, "7", 7, "gone", None, -1, "gone", "-1", "7", "f3", 0, "0", "00", 1.0, "1"]
+        for extra in (0, 20, 40):
+            ks = ["f%d" % i for i in range(npres)] + ["m%d" % i for i in range(extra)] + tail
+            for d in (present, dict(present, **{"7": 1}), [1, 2, 3]):
+                out.append(app({"missing": ks[:-2]}, d))
+                for t in (0, 1, npres, npres + 1, len(ks), len(ks) + 1):
+                    out.append(app({"missing_some": [t, ks[:-2]]}, d))
     n = 1500 if tier == "quick" else 30000
     for _ in range(n):
         ks = [g.r.choice(["a", "b", "zz", "yy", "l.0", "l.5", 0, 7, None, "e.f", "e.q", "", "s"]) for _ in range(g.r.randint(0, 6))]
@@ -400,6 +459,21 @@ def s_hof(g, tier):
                 out.append(app({"reduce": [{"var": "coll"}, e, i]}, dict(outer, coll=c)))
                 if not (isinstance(c, list) and c and G.is_op_shaped(c[0])) and not isinstance(c, dict):
                     out.append(app({"reduce": [c, e, i]}, outer))
+    # the fold order of a numeric reduce is observable in floating point; keys with backslashes inside map/filter; constant `log` predicates
+    plus = {"+": [{"var": "current"}, {"var": "accumulator"}]}; plus2 = {"+": [{"var": "accumulator"}, {"var": "current"}]}; times = {"*": [{"var": "accumulator"}, {"var": "current"}]}
+    for init, xs in ((2 ** 53, [1, 1]), (-1e308, [1e308, 1e308]), (1e16, [1, 1, 1, 1]), (0.1, [0.2, 0.3]), (1, [1e16, -1e16]), (9007199254740993, [0, 0]), (0, [0.1] * 10), (1e308, [1e308, -1e308]),
+                     (2 ** 53, [1.0, 1.0, 1.0]), ("1", [1, 2]), (None, [1, 2]), (0.5, [2 ** 53, 0.5])):
+        for red in (plus, plus2, times):
+            out.append(app({"reduce": [xs, red, init]}, None)); out.append(app({"reduce": [{"var": "xs"}, red, {"var": "i"}]}, {"xs": xs, "i": init}))
+    rows = [{"C:\\tmp": 3, "a\\b": 1, "ab\\": 2, "ab": 9, "Ctmp": 8, "a.b": 7, "a": {"b": 6}}, {"ab": 5}, ["x"], "str"]
+    for key in ["C:\\\\tmp", "a\\\\b", "ab\\\\", "a\\b", "ab\\", "a\\.b", "a.b", "ab", "C:\\tmp"]:
+        for q in ("map", "filter", "all", "some"):
+            out.append(app({q: [{"var": "rows"}, {"var": key}]}, {"rows": rows})); out.append(app({q: [{"var": "rows"}, {"var": [key]}]}, {"rows": rows}))
+        out.append(app({"var": key}, rows[0]))
+    for pred in ({"log": "tick"}, {"log": 1}, {"log": [1, 2]}, {"!": [{"log": "t"}]}, {"cat": [{"log": "a"}, "b"]}, {"+": [{"log": 1}, 1]}, {"log": {"cat": ["a", "b"]}}):
+        for q in ("map", "filter", "all", "some", "none"):
+            out.append(app({q: [[1, 2, 3], pred]}, None)); out.append(app({q: [{"var": ""}, pred]}, [1, 2]))
+        out.append(app({"reduce": [[1, 2, 3], pred, 0]}, None)); out.append(app({"if": [pred, pred, pred]}, None)); out.append(app({"and": [pred, pred]}, None))
     # evaluation-once / order: collection and initial are logging expressions
     out.append(app({"map": [{"log": [1, 2]}, {"log": {"var": ""}}]}, None))
     out.append(app({"reduce": [{"log": [1, 2]}, {"log": {"var": "current"}}, {"log": "init"}]}, None))
@@ -469,6 +543,13 @@ def s_merge_in(g, tier):
             out.append(via_var("in", [nd, h]))
             if not (isinstance(nd, dict) or any(isinstance(x, dict) for x in (h if isinstance(h, list) else []))) and not isinstance(h, dict):
                 out.append(app({"in": [nd, h]}, None))
+    for a in (1e300, 1e301, 2e38, 3e38, -1e300, -1e301, 1.7014118346046923e38, 1.7014118346046925e38, 1e39, 1e38, float(2 ** 127), float(2 ** 126)):
+        for b in (1e300, 1e301, 2e38, 3e38, -1e300, 1.7014118346046925e38, 1e39, float(2 ** 127)):
+            out.append(via_var("in", [a, [b]])); out.append(via_var("in", [[a], [[b]]])); out.append(via_var("in", [{"k": a}, [{"k": b}]]))
+    for hay in (list(range(40)), list(range(31)), list(range(32)), list(range(33)), [float(i) for i in range(40)], [str(i) for i in range(40)], list(range(39)) + [-0.0], list(range(39)) + [None]):
+        for nd in (7, 7.0, 1e1, -0.0, 0, 0.0, "7", 39, 40, 39.0, None, 3.5, True):
+            out.append(app({"in": [{"var": "x"}, hay]}, {"x": nd})); out.append(via_var("in", [nd, hay]))
+            if not isinstance(nd, dict): out.append(app({"in": [nd, hay]}, None))
     for s in ["", "a", "é", "😀", "lo😀", "llo", "hé", "x", "héllo😀", "éé"]:
         for h in ["", "a", "héllo😀", "éé", "aé"]:
             out.append(app({"in": [s, h]}, None))
@@ -560,6 +641,11 @@ def s_depth(levels=(20, 63)):
             for _ in range(lv // 2):
                 inner = {k: [[inner], True if k != "none" else False]}
             out.append(app(inner, None))
+    # very long SHALLOW operand lists (a recursive implementation would need one stack frame per operand)
+    for n in (3000, 12000):
+        out += [app({"if": [0, 0] * n + [1]}, None), app({"?:": [False, "x"] * n}, None), app({"or": [0] * (2 * n) + ["last"]}, None), app({"and": [1] * (2 * n) + ["last"]}, None),
+                app({"+": [1] * (2 * n)}, None), app({"cat": ["a"] * (2 * n)}, None), app({"merge": [[1]] * (2 * n)}, None), app({"max": [1] * (2 * n)}, None), app({"missing": ["a"] * (2 * n)}, None),
+                app({"all": [[1] * (2 * n), True]}, None), app({"some": [[0] * (2 * n), {"var": ""}]}, None), app({"map": [[1] * (2 * n), 1]}, None), app({"reduce": [[1] * (2 * n), {"var": "current"}, 0]}, None)]
     # deeply nested DATA (126 levels of arrays / objects): string forms, comparisons, membership, lookups, truthiness
     deepa = 1; deepo = 1
     for _ in range(126):
@@ -671,6 +757,26 @@ def s_scale(g, tier):
                 out.append(app({q: [{"var": "c"}, pred]}, d))
         out.append(app({"reduce": [{"var": "c"}, {"cat": [{"var": "accumulator"}, "|", {"var": "current"}]}, ""]}, d))
         out.append(app({"merge": [{"var": "c"}, {"var": "c"}]}, d)); out.append(app({"in": ["1", {"var": "c"}]}, d)); out.append(app({"in": [[0], {"var": "c"}]}, d))
+    # error paths that quote a long non-ASCII operand (a message cut at a byte offset can split a character): every alignment 0..3
+    for pad in range(4):
+        for unit, cnt in (("é", 200), ("日", 100), ("😀", 80), ("é", 130)):
+            long_s = "a" * pad + unit * cnt
+            for bad in (long_s, {"name": long_s}, {long_s: 1}, [long_s, {"k": long_s}]):
+                d = {"v": bad}
+                for q in ("map", "filter", "all", "some", "none"):
+                    out.append(app({q: [{"var": "v"}, True]}, d))
+                out += [app({"reduce": [{"var": "v"}, 1, 0]}, d), app({"+": [{"var": "v"}]}, d), app({"*": [1, {"var": "v"}]}, d), app({"-": [{"var": "v"}, 1]}, d), app({"max": [{"var": "v"}]}, d),
+                        app({"substr": [{"var": "v"}, {"var": "v"}]}, d), app({"substr": ["abc", {"var": "v"}]}, d), app({"in": [1, {"var": "v"}]}, d), app({"in": [{"var": "v"}, "abc"]}, d),
+                        app({"var": [{"var": "v"}]}, d), app({"missing": [{"var": "v"}]}, d), app({"missing_some": [{"var": "v"}, ["a"]]}, d), app({"missing_some": [1, {"var": "v"}]}, d),
+                        app({"missing_some": [1, [{"var": "v"}]]}, d)]
+                if not isinstance(bad, list):
+                    out += [app({"==": bad if not isinstance(bad, dict) else long_s}, None), app({"map": bad if isinstance(bad, str) else long_s}, None), app({"reduce": long_s}, None),
+                            app({"==": [long_s]}, None), app({"substr": [long_s]}, None), app({"!": [long_s, long_s]}, None), app({"var": [long_s, 1, 2]}, None), app({"missing_some": [long_s]}, None),
+                            app({"/": long_s}, None), app({"in": [long_s, long_s, long_s]}, None), app({"all": long_s}, None)]
+    # very long strings through the equality and relational operators
+    huge2 = "ab" * 33000
+    for k in ("==", "!=", "===", "!==", "<", "<=", ">", ">="):
+        out += [app({k: [{"var": ""}, {"var": ""}]}, huge2), app({k: [{"var": ""}, 5]}, huge2), app({k: [{"var": ""}, {"cat": [{"var": ""}, "x"]}]}, huge2), app({k: [{"var": "0"}, {"var": ""}]}, huge2)]
     # long strings, long shared prefixes
     big = "ab" * 1500         # (the model's infix test is quadratic; the 10^5-character string below is used for linear operations only)
     huge = "ab" * 50000
